@@ -805,8 +805,8 @@ func (env *Env) specCall(x *ast.CallExpr) Val {
 	case "forall", "exists":
 		// forall(i, lo, hi, body)  : lo <= i < hi ; forallx(i, Sort, body)
 		id, ok := x.Args[0].(*ast.Ident)
-		if !ok || len(x.Args) != 4 {
-			env.fail(x.Pos(), "contract: %s(i, lo, hi, body)", name)
+		if !ok || (len(x.Args) != 4 && len(x.Args) != 5) {
+			env.fail(x.Pos(), "contract: %s(i, lo, hi, body [, trig(terms)])", name)
 		}
 		lo := env.coerce(arg(1), SInt)
 		hi := env.coerce(arg(2), SInt)
@@ -819,8 +819,21 @@ func (env *Env) specCall(x *ast.CallExpr) Val {
 		sub.bound[id.Name] = Term{bv, SInt}
 		body := sub.eval(x.Args[3])
 		rng := and(app("<=", lo.T.S, bv), app("<", bv, hi.T.S))
+		if name == "forall" && len(x.Args) == 5 {
+			// explicit instantiation pattern: trig(t1, t2, ...) - the terms must mention the bound variable
+			tc, ok := x.Args[4].(*ast.CallExpr)
+			if fid, isId := tc.Fun.(*ast.Ident); !ok || !isId || fid.Name != "trig" || len(tc.Args) == 0 {
+				env.fail(x.Pos(), "contract: fifth argument of forall is trig(terms)")
+			}
+			var pats []string
+			for _, ta := range tc.Args {
+				pv := sub.eval(ta)
+				pats = append(pats, sub.term(pv, x.Pos()).S)
+			}
+			return Val{T: Term{fmt.Sprintf("(forall ((%s Int)) (! (=> %s %s) :pattern (%s) :qid %s))", bv, rng, body.T.S, strings.Join(pats, " "), qidOf(x, env)), SBool}}
+		}
 		if name == "forall" {
-			return Val{T: Term{fmt.Sprintf("(forall ((%s Int)) (=> %s %s))", bv, rng, body.T.S), SBool}}
+			return Val{T: Term{fmt.Sprintf("(forall ((%s Int)) (! (=> %s %s) :qid %s))", bv, rng, body.T.S, qidOf(x, env)), SBool}}
 		}
 		return Val{T: Term{fmt.Sprintf("(exists ((%s Int)) (and %s %s))", bv, rng, body.T.S), SBool}}
 	case "forallk", "existsk":
@@ -1052,4 +1065,21 @@ func (env *Env) specConv(to types.Type, x *ast.CallExpr) Val {
 		return Val{T: t, GoT: to}
 	}
 	return env.convertVal(Val{T: t}, nil, to, x.Pos())
+}
+
+// qidOf names a quantifier after the text of its body (for solver profiles).
+func qidOf(x *ast.CallExpr, env *Env) string {
+	t := exprString2(x.Args[3])
+	var b strings.Builder
+	for _, r := range t {
+		if (r >= 'a' && r <= 'z') || (r >= 'A' && r <= 'Z') || (r >= '0' && r <= '9') {
+			b.WriteRune(r)
+		} else if b.Len() > 0 && !strings.HasSuffix(b.String(), "_") {
+			b.WriteByte('_')
+		}
+		if b.Len() > 48 {
+			break
+		}
+	}
+	return "q_" + b.String()
 }
